@@ -3,7 +3,7 @@ import sys, os, glob, importlib.util, tempfile, json
 sys.path.insert(0, os.path.dirname(os.path.abspath(__file__)))
 sys.path.insert(0, os.path.join(os.path.dirname(os.path.abspath(__file__)), '..', 'contracts'))
 import vf
-for f in sorted(glob.glob(os.path.join(vf.VERIF, 'contracts', 'c*.py'))):
+for f in sorted(glob.glob(os.path.join(vf.VERIF, 'contracts', 'c*.py'))) + [x for x in os.environ.get('EXTRA_CONTRACTS', '').split(':') if x]:
     if os.path.basename(f) == 'common.py': continue
     name = os.path.basename(f)[:-3]
     if name in sys.modules: continue
